@@ -497,28 +497,24 @@ def parseSubjectTo : List Tok → Option (List Tok)
   | .name a :: rest => if isKw kwSt1 a then some rest else none
   | _ => none
 
+/-- an optional section: if the next token is one of the section's keywords run `parse` on what
+follows it, otherwise the section is absent. -/
+def optSection {β : Type} (kws : List (List Char)) (parse : List Tok → Option (β × List Tok)) (dflt : β)
+    (toks : List Tok) : Option (β × List Tok) :=
+  match toks with
+  | .name w :: rest => if isKw kws w then parse rest else some (dflt, toks)
+  | _ => some (dflt, toks)
+
 /-- the optional sections in the order `Bounds`, `Binary`, `General`, then `End`. -/
 def parseSections (lexN : List Char → Option α) (toks : List Tok) :
     Option (List (LpBound α) × List String × List String) :=
-  let bres : Option (List (LpBound α) × List Tok) :=
-    match toks with
-    | .name w :: rest => if isKw kwBounds w then parseBounds lexN (rest.length + 1) rest else some ([], toks)
-    | _ => some ([], toks)
-  match bres with
+  match optSection kwBounds (fun rest => parseBounds lexN (rest.length + 1) rest) [] toks with
   | none => none
   | some (bounds, toks) =>
-    let ires : Option (List String × List Tok) :=
-      match toks with
-      | .name w :: rest => if isKw kwBinary w then parseNames rest else some ([], toks)
-      | _ => some ([], toks)
-    match ires with
+    match optSection kwBinary parseNames [] toks with
     | none => none
     | some (bins, toks) =>
-      let gres : Option (List String × List Tok) :=
-        match toks with
-        | .name w :: rest => if isKw kwGeneral w then parseNames rest else some ([], toks)
-        | _ => some ([], toks)
-      match gres with
+      match optSection kwGeneral parseNames [] toks with
       | none => none
       | some (gens, toks) =>
         match toks with
